@@ -69,6 +69,18 @@ func stripTextualKeywords(q *h.Query, excluded *int) {
 		kept = append(kept, f)
 	}
 	q.Fields = kept
+	// listed finding len-declared-one-to-one: GROUP BY LEN(dim) is treated as
+	// confining groups to partitions (the dependency goexpr walks LEN's
+	// argument in WalkOneToOneParams although LEN is not one-to-one)
+	var keptGE []h.GroupEx
+	for _, ge := range q.GroupEx {
+		if strings.HasPrefix(ge.SQL, "LEN(") {
+			*excluded++
+			continue
+		}
+		keptGE = append(keptGE, ge)
+	}
+	q.GroupEx = keptGE
 	// listed finding crosstab-star-cluster-panic: CROSSTAB without explicit dims
 	if len(q.Crosstab) > 0 && len(q.GroupBy) == 0 {
 		*excluded++
@@ -284,6 +296,13 @@ func probesC11(rec *h.Rec) {
 	for c6.Salt = 0; c6.Salt < 50 && c6.partitionOf(pts6[0]) == c6.partitionOf(pts6[1]); c6.Salt++ {
 	}
 	probe(rec, "TestC11", "pushdown-splits-table-key", "table grouped by da without partition keys: two points of key da=x that differ in another dim are routed to different partitions (hash of all dims); SELECT * is pushed down whole and returns two rows for (da=x, period) instead of one merged row", c6, func() error { return runC11(&c6) })
+	tbl7 := simpleTable("ta", []h.FieldDef{{Name: "fa", Ex: &h.Ex{Op: "SUM", F: "va"}}}, []string{"da", "db"})
+	tbl7.PartBy = []string{"da"}
+	c7 := C11Case{Data: DataCase{Schema: h.Schema{Tables: []h.TableDef{tbl7}}, Points: pts}, N: 2,
+		Queries: []*h.Query{{Fields: []h.QField{{Name: "fa"}}, From: "ta", GroupEx: []h.GroupEx{{Name: "g2", SQL: "LEN(da)"}}}}}
+	for c7.Salt = 0; c7.Salt < 50 && c7.partitionOf(pts[0]) == c7.partitionOf(pts[1]); c7.Salt++ {
+	}
+	probe(rec, "TestC11", "len-declared-one-to-one", "table partitioned by da, GROUP BY LEN(da) AS g2: the query is pushed down whole although the group g2=1 spans both partitions (da=x and da=y), so the cluster returns one row per partition instead of one merged row; the dependency goexpr reports LEN's argument as a one-to-one parameter", c7, func() error { return runC11(&c7) })
 	if raw, err := os.ReadFile("probes/c11_shift.json"); err == nil {
 		var c5 C11Case
 		if json.Unmarshal(raw, &c5) == nil {
